@@ -3,7 +3,7 @@ from lib import semcheck, progs, progs_shapes
 from lib.semcheck import model_expr, describe, shrink, IMPORTS
 
 ID = 'C09'
-THEOREMS = ['C09_compiled_program_computes_reference', 'C09_builtin_extensional', 'C09_call_spec_compound', 'C09_call_spec_atom', 'C09_once_spec', 'C09_findall_spec', 'C09_findall_one_instance_per_answer', 'C09_findall_instances', 'C09_findall_at_most_once', 'C09_findall_bag_after_enumeration', 'C09_findall_is_collect_then_match', 'C09_findall_shares_caller_variables', 'C09_eq_spec',
+THEOREMS = ['C09_compiled_program_computes_reference', 'C09_builtin_extensional', 'C09_call_spec_compound', 'C09_call_spec_atom', 'C09_once_spec', 'C09_findall_spec', 'C09_findall_one_instance_per_answer', 'C09_findall_instances', 'C09_findall_at_most_once', 'C09_findall_bag_after_enumeration', 'C09_findall_is_collect_then_match', 'C09_findall_copies_are_fresh', 'C09_findall_copies_are_disjoint', 'C09_findall_copies_instances', 'C09_eq_spec',
             'C09_condition_failure_discards_bindings', 'C09_after_failed_condition', 'C09_negation_discards_bindings', 'C09_branch_failure_discards_bindings', 'C09_neq_spec']
 CASE_TIMEOUT = 60
 MODEL_NEEDS_IMPL = True
